@@ -162,3 +162,23 @@ _add(
          "rule), and an in-place twin must agree exactly.",
     technique="runtime monitoring: closed-form kernel-sum reference model + in-place/out-of-place twin comparison on the real synapse classes",
 )
+
+_add(
+    "C03",
+    rule="trajectories of 40-200 steps for each of the 8 neuron classes with hyper-parameters drawn inside the documented "
+         "domains (refractory period 0, dt, 2dt, 2.5dt, 3dt, 0.3 at dt 0.1; dt in {1,0.5,0.1,1.3}), float32 and float64, "
+         "batch 1-4, shapes up to 3-D, per-step drive in {random, zero, +-1e6, negative, strong, near-threshold solved "
+         "from the oracle to land at theta*(1+-1e-4)}, refrac_lock on/off, adapt True/False/None x train/eval; plus "
+         "exactly representable ties v == theta (and one ulp either side) for the quadratic neurons. One evaluation = "
+         "one neuron step judged by the model-free invariants I1-I6 and (float64) by the one-step model from the "
+         "observed pre-state. distinct = (class, dtype, dt, refractory ratio, drive, lock, adapt, spiking/quiet, batch).",
+    required=["steps_checked", "spikes_seen", "reset_checks", "silence_window_steps", "adaptation_freeze_checks",
+              "model_steps_checked", "exact_ties_checked"],
+    floor={"quick": 400, "thorough": 1500},
+    text="Held on every trajectory explored (apart from the listed finding): every forward of the real neuron classes "
+         "is checked for non-negative refractory time, spike attribute == returned spikes, no spike while refractory, "
+         "same-step reset, the silence window max(1, ceil(refrac/dt)) with bit-identical locked voltage and frozen "
+         "adaptation, and - in float64 - against an independent transcription of the documented update equations "
+         "applied to the observed pre-step state, with a guard band around the threshold decision.",
+    technique="runtime monitoring: per-step invariants + float64 one-step reference model on the real neuron forward() over generated drives",
+)
